@@ -4,7 +4,7 @@
    the implementation by checks/C18.py. *)
 From Coq Require Import List Arith Bool Sorted.
 Import ListNotations.
-From Verif Require Import BatchRPC.Model BatchRPC.Proofs BatchRPC.Proofs2 BatchRPC.Proofs3.
+From Verif Require Import BatchRPC.Model BatchRPC.Proofs BatchRPC.Proofs2 BatchRPC.Proofs3 BatchRPC.Proofs4.
 
 (* ids: allocation order is strictly increasing, every id is allocated exactly once (also across stream
    re-creation: no step lowers next_id), every id in the table was allocated to exactly that entry *)
@@ -74,6 +74,33 @@ Theorem C18_fail_pending_unconditional_refuted : ~ fail_pending_unconditional.
 Proof. exact fail_pending_unconditional_refuted. Qed.
 Print Assumptions C18_fail_pending_unconditional_refuted.
 
+(* the losing branch of the epoch CAS refreshes the loop's epoch copy (`*epoch = atomic.LoadUint64(&c.epoch)`) and
+   changes nothing else; therefore, as long as no other loop wins a CAS in between (epoch unchanged), the NEXT break
+   of the same stream wins the CAS: failPendingRequests is reached, every entry then in flight on that stream gets
+   the stream error and leaves the table *)
+Theorem C18_lost_cas_refreshes_epoch : forall s h ep s', loops s h = LIdle ep -> ep <> epoch s -> closed s = false ->
+  step s (StreamFail h) = Some s' ->
+  loops s' h = LIdle (epoch s') /\ epoch s' = epoch s /\ tab s' = tab s /\ (forall c, ent s' c = ent s c).
+Proof. exact lost_cas_refreshes. Qed.
+Print Assumptions C18_lost_cas_refreshes_epoch.
+
+Theorem C18_lost_cas_then_fail_pending : forall s h ep s1 ls s2 s3, reachable s ->
+  loops s h = LIdle ep -> ep <> epoch s -> closed s = false -> step s (StreamFail h) = Some s1 ->
+  run s1 ls = Some s2 -> epoch s2 = epoch s1 -> closed s2 = false ->
+  step s2 (StreamFail h) = Some s3 ->
+  epoch s3 = S (epoch s2)
+  /\ (forall i c, In (i, c) (tab s3) -> e_host (ent s3 c) <> h)
+  /\ (forall i c, In (i, c) (tab s2) -> e_host (ent s2 c) = h ->
+        e_comp (ent s3 c) = [Err EStream] /\ e_st (ent s3 c) = Retired /\ ~ In (i, c) (tab s3)).
+Proof. exact lost_cas_then_fail_pending. Qed.
+Print Assumptions C18_lost_cas_then_fail_pending.
+
+(* the id source survives a restart of the send loop (panic recovery keeps the batchConn's reqBuilder): Restart is a
+   step of the system, so C18_ids_fresh quantifies over runs containing it, and it changes nothing *)
+Theorem C18_restart_keeps_ids : forall s s', step s Restart = Some s' -> s' = s.
+Proof. exact restart_keeps_ids. Qed.
+Print Assumptions C18_restart_keeps_ids.
+
 (* a response is never put on the channel of an entry whose canceled flag was set when the dispatch read it *)
 Theorem C18_canceled_never_delivered : forall s l s' c p, reachable s -> step s l = Some s' ->
   e_canceled (ent s c) = true -> In (Resp p) (e_comp (ent s' c)) -> In (Resp p) (e_comp (ent s c)).
@@ -123,3 +150,16 @@ Qed.
 Example ex_cancel : let s := get (run init [Submit 1 0; Build 1 1; Store 1; Abort 1 ETimeout; RecvLoad 0 1 1; RecvFinish 0; RecvLoad 0 1 1]) in
   e_ret (ent s 1) = Some (Err ETimeout) /\ e_comp (ent s 1) = [] /\ tab s = [] /\ outdated s = 1.
 Proof. vm_compute. auto. Qed.
+
+(* both streams break with nothing pending (host 0 wins, host 1 loses and refreshes), later a request is pending on
+   host 1 and its stream breaks again: it is failed at once; ids keep growing across a send-loop restart *)
+Example ex_rebreak : let s := get (run init [Submit 1 0; Submit 2 1; Build 1 1; Build 2 2; Store 1; Store 2;
+     RecvLoad 0 1 1; RecvFinish 0; RecvLoad 1 2 2; RecvFinish 1; StreamFail 0; StreamFail 1;
+     Submit 3 1; Build 3 3; Store 3; StreamFail 1]) in
+  tab s = [] /\ e_comp (ent s 3) = [Err EStream] /\ epoch s = 2.
+Proof. vm_compute. auto. Qed.
+
+Example ex_restart_then_reuse_rejected :
+  run init [Submit 1 0; Build 1 1; Store 1; Restart; Submit 2 0; Build 2 1] = None
+  /\ run init [Submit 1 0; Build 1 1; Store 1; Restart; Submit 2 0; Build 2 2] <> None.
+Proof. split; vm_compute; [reflexivity | discriminate]. Qed.
